@@ -10,6 +10,27 @@ TB = ("Trusted: Coq 8.16.1 kernel + vm_compute (no native_compute); the hand-wri
       "Python harness (generators, runner, projections, oracle). ")
 
 CHECKS = {
+    "C02": dict(
+        text="C02_safe: for every history over the state-tracked API (any decimal_places, rejected calls and C05 leak "
+             "sites included) the word-by-word scan of the emitted program never meets M3/M4 with the tool on, M7/M8 "
+             "with coolant on, or M6 / a halt-wait word with either active (induction over the history with the "
+             "invariant machine-on => builder-on). C02_raises_*: such a call raises ToolStateError/CoolantStateError "
+             "from every state and changes nothing. C02_only_when: the converse, for every state and call. The "
+             "instruction words come from the table regenerated from /repo. Correspondence: model vs GCodeBuilder on "
+             "generated interlock-heavy histories (words, exception class, full public state after every call).",
+        note=TB + "Hypothesis of C02_safe: free parameter letters of moves/halt are not 'M' (cmd_ok), raw write() "
+                  "excluded. Modelled, not verified: CPython, typeguard, enum lookup. No axioms.",
+        technique="Rocq invariant proof over all histories + model-vs-code correspondence (vm_compute) + oracle scan",
+        ref="§C02"),
+    "C06": dict(
+        text="C06_tool_off/power_off/coolant_off/emergency_halt: from EVERY model state (not only reachable ones, "
+             "hence under every bounds table) the four shutdown calls return normally, emit exactly M5 / M9 / "
+             "M5,M9,comment,M0|M30 in that order and leave the flags off -- proved by computation on the model "
+             "with the regenerated table. Correspondence + oracle on reachable states x bounds configurations "
+             "including tool-power ranges that exclude zero.",
+        note=TB + "Modelled, not verified: CPython, typeguard. No axioms.",
+        technique="Rocq proof for all states + model-vs-code correspondence (vm_compute) + oracle",
+        ref="§C06"),
     "C17": dict(
         text="Theorems C17_conservation and C17_lines_are_cut (coq/props/C17.v) hold for every byte stream, every "
              "fragmentation into chunks of any size, every placement of read timeouts, after every number of "
